@@ -32,6 +32,7 @@ func TestVerifC02Reload(t *testing.T) {
 		shapes := map[string]bool{}
 		err := s.Run(t, chansim.RunOpts{
 			MinSteps: 8, MaxSteps: maxSteps, Cuts: true, CutWeight: 1,
+			Faults: true,
 			AfterStep: func(s *chansim.Sim, a string) error {
 				for x := 0; x < 2; x++ {
 					if err := s.CheckReload(x); err != nil {
